@@ -31,6 +31,18 @@ Theorem C03_front_module_inventory : forall al d pref_doc warn st m st' w,
     map e_name (m_enums md) = map cd_name (member_enums (walked m)) /\
     map e_id (m_enums md) = map (fun c => m_id md ++ K"/" ++ cd_name c) (member_enums (walked m)).
 Proof. exact module_inventory. Qed.
+(* ... and the same for a class: the class record lists the functions its members stand for (definitions, decorated definitions,
+   implementations of overloads, getters of properties with setters; the constructor is kept apart) and its nested classes
+   (enums nested in classes are not registered: a defect outside the checked domain, DESIGN 0.5) exactly once, in order *)
+Theorem C03_front_class_inventory : forall al d pref_doc warn st c st' w top rest,
+  walk_member al d pref_doc warn st (CMClass c) = Ok (st', w) -> is_enum_def c = false -> vs_stack st = top :: rest ->
+  exists cl, vs_stack st' = add_cls top cl :: rest /\ c_name cl = cd_name c /\ c_id cl = id_from_stack st (cd_name c) /\
+    map f_name (c_methods cl) = map fn_name (class_method_defs (class_walked c)) /\
+    map f_id (c_methods cl) = map (fun f => c_id cl ++ K"/" ++ fn_name f) (class_method_defs (class_walked c)) /\
+    map c_name (c_classes cl) = map cd_name (member_classes (class_walked c)) /\
+    map c_id (c_classes cl) = map (fun x => c_id cl ++ K"/" ++ cd_name x) (member_classes (class_walked c)).
+Proof. exact class_inventory. Qed.
 Print Assumptions C03_class_attributes_once.
 Print Assumptions C03_class_methods.
 Print Assumptions C03_front_module_inventory.
+Print Assumptions C03_front_class_inventory.
